@@ -381,7 +381,14 @@ type Cfg struct {
 	FixedFmt   *Format
 	NoCreator  bool
 	UniqueSigs bool
+	// Decoys: some files lie under no Go root but their tail names a file that
+	// exists under a real GOROOT/src (e.g. /a/sort/sort.go).
+	Decoys bool
 }
+
+// DecoyFiles have a tail that exists under $GOROOT/src.
+var DecoyFiles = []string{"/a/sort/sort.go", "/home/u/proj/sort/sort.go", "/x/fmt/print.go", "/w/os/file.go", "/q/src/fmt/print.go", "/srv/app/net/http/server.go",
+	"/fmt/print.go", "/go/pkg/mod/fmt/print.go", "//sort/sort.go", "/a/b/c/d/runtime/proc.go", "sort/sort.go", "/src/sort/sort.go", "/pkg/mod/sort/sort.go"}
 
 func genValue(r *core.Rand, cfg *Cfg) uint64 {
 	if len(cfg.PtrPool) > 0 && r.Chance(2, 3) {
@@ -450,6 +457,9 @@ func GenSym(r *core.Rand, cfg *Cfg) Sym {
 
 // GenFile makes a file reference.
 func GenFile(r *core.Rand, cfg *Cfg) string {
+	if cfg.Decoys && r.Chance(1, 6) {
+		return r.Pick(DecoyFiles)
+	}
 	switch r.Intn(30) {
 	case 0:
 		return "??"
